@@ -194,6 +194,21 @@ def shrink(c):
     sc, k, mfail, mok, ad = v
     sc = [(bytes(ch), e) for ch, e in sc]
     cands = []
+    # drop a group of leading / trailing chunks that make up exactly one packet (keeps the alignment)
+    tot = 0
+    for i, (ch, e) in enumerate(sc):
+        tot += len(ch)
+        if tot == PS and i + 1 < len(sc):
+            cands.append(sc[i + 1:])
+        if tot >= PS:
+            break
+    tot = 0
+    for i in range(len(sc) - 1, -1, -1):
+        tot += len(sc[i][0])
+        if tot == PS and i > 0 and all(e == 0 for _, e in sc[i:]):
+            cands.append(sc[:i])
+        if tot >= PS:
+            break
     for i in range(min(len(sc), 30)):
         cands.append(sc[:i] + sc[i + 1:])                       # drop a chunk
     for i in range(min(len(sc) - 1, 30)):
